@@ -102,6 +102,23 @@ impl Directive {
     ) -> Result<NextItem, Error> {
         let mut next_item = NextItem::NewLine;
 
+        // these look at one operand only: what follows it must not be ignored without a word
+        if let (
+            Directive::If
+            | Directive::ElIf
+            | Directive::IfDef
+            | Directive::IfNDef
+            | Directive::Org
+            | Directive::Include
+            | Directive::IncludePath,
+            DirectiveOps::OpList(values),
+        ) = (self, opts)
+        {
+            if values.len() > 1 {
+                bail!("Too many arguments for {}, {}", self, point);
+            }
+        }
+
         let ParseContext {
             current_path,
             include_paths,
